@@ -43,3 +43,11 @@ impl<L: Language> Matcher<L> for RegexMatcher<L> {
     None
   }
 }
+
+#[cfg(feature = "verif-hooks")]
+impl<L: Language> RegexMatcher<L> {
+  /// verification hook: the regex source
+  pub fn verif_regex_str(&self) -> &str {
+    self.regex.as_str()
+  }
+}
